@@ -54,6 +54,11 @@ def compile_cases(cases, cfg, d, extra_prelude=''):
                 attributed = True
                 if cid not in blamed: blamed[cid] = cur_err
         if not blamed:
+            # maybe the library headers themselves do not compile under this configuration
+            ok0, err0, cmd0, *_ = _compile_subset([], cfg, d, 'empty', extra_prelude)
+            if not ok0:
+                for c in cur: fails.append((c, 'the library headers alone do not compile in this configuration: ' + _err_summary(err0), ' '.join(cmd0)))
+                return [], None, fails, total, None
             raise RuntimeError('TU does not compile and no wrapper could be blamed: ' + _err_summary(err))
         byid = {c.id: c for c in cur}
         for cid, msg in blamed.items():
